@@ -13,7 +13,8 @@ class Conditional:
         self.variable_index = variable_index
 
     def __call__(self, x: ndarray):
-        t = self.theta.copy()
+        # (a floating-point copy: an integer conditioning point would truncate 'x')
+        t = array(self.theta, dtype=float)
         t[self.variable_index] = x
         return self.posterior(t)
 
